@@ -65,6 +65,18 @@ def generate(rng, tier):
         x = rng.choice(vs); y = rng.choice([ylo - far, yhi + far, (ylo + yhi) / 2])
         if min(abs(y - (ylo - tol)), abs(y - (yhi + tol))) > 1e-6 * (1 + abs(y)) and min(abs(x - (lo - tol)), abs(x - (hi + tol))) > 1e-6 * (1 + abs(x)):
             cases.append({"kind": "pib", "x": F(x), "y": F(y), "xmin": F(lo), "ymin": F(ylo), "xmax": F(hi), "ymax": F(yhi), "tol": F(tol), "float": True, "family": "float/point_in_bounds"})
+    # agreement of point_in_bounds with checkLimitsTol applied per coordinate on the very same floats, at the knife edges where a
+    # coordinate is (the float nearest to) bound +- tolerance and bound +- tolerance +- a few ulps: judged by comparing the two answers
+    import math
+    for _ in range(max(30, n // 2)):
+        xb = sorted([rng.choice(DEC + [1.0, 5.0, 8.5, 10.0, 11.0, 100.0, 1e16 + 2]), rng.choice(DEC + [10.0, 210.0, 297.0, 300.0])])
+        yb = sorted([rng.choice(DEC + [0.0, 10.0]), rng.choice(DEC + [10.0, 100.0])])
+        tol = rng.choice([1e-9, 1e-9, 0.01, 1.0, 0.0, 1e-6])
+        def edge(lo, hi):
+            v = rng.choice([hi + tol, lo - tol, hi, lo, hi + tol / 2, (lo + hi) / 2])
+            for _ in range(rng.choice([0, 0, 1, 2])): v = math.nextafter(v, rng.choice([math.inf, -math.inf]))
+            return v
+        cases.append({"kind": "agree", "x": F(edge(*xb)), "y": F(edge(*yb)), "xmin": F(xb[0]), "xmax": F(xb[1]), "ymin": F(yb[0]), "ymax": F(yb[1]), "tol": F(tol), "family": "float/agreement-at-the-knife-edge"})
     # the same bounds object handed to point_in_bounds again after the caller changed it in place (a plotter's travel limits are
     # edited between layers): the answer must follow the contents, not the object
     for _ in range(max(10, n // 5)):
@@ -94,6 +106,13 @@ def run_impl(c):
         r, f = plot_utils.checkLimitsTol(c["v"], c["lo"], c["hi"], c["tol"]); return {"r": F(r), "f": bool(f)}
     if k == "con":
         return {"r": F(plot_utils.constrainLimits(c["v"], c["lo"], c["hi"]))}
+    if k == "agree":
+        x, y, tol = float(c["x"]), float(c["y"]), float(c["tol"])
+        b = plot_utils.point_in_bounds([x, y], [[float(c["xmin"]), float(c["ymin"])], [float(c["xmax"]), float(c["ymax"])]], tol)
+        _, fx = plot_utils.checkLimitsTol(x, float(c["xmin"]), float(c["xmax"]), tol); _, fy = plot_utils.checkLimitsTol(y, float(c["ymin"]), float(c["ymax"]), tol)
+        if bool(b) != (not fx and not fy):
+            return {"raise": "Disagreement", "msg": "point_in_bounds says %r, checkLimitsTol flags x: %r, y: %r" % (b, fx, fy)}
+        return {"agree": True}
     if k == "pibseq":
         bounds = [[0, 0], [0, 0]]; out = []
         for st in c["steps"]:
@@ -112,6 +131,7 @@ def coq_case(c, r):
         if k == "pib":
             return "(K_con 0 0 0 1)"
         return "(K_con 0 0 0 1)"
+    if k == "agree": return "(K_con 0 0 0 0)"          # the two answers were compared by the harness; a disagreement is encoded as a raising call above
     if k == "pibseq":
         return "(K_pibs %s)" % clist(["(%s, %s)" % (", ".join(cq(st[x]) for x in ("x", "y", "xmin", "ymin", "xmax", "ymax", "tol")), cb(b)) for st, b in zip(c["steps"], r["bs"])])
     if k == "check": return "(K_check %s %s %s %s %s)" % (cq(c["v"]), cq(c["lo"]), cq(c["hi"]), cq(r["r"]), cb(r["f"]))
@@ -120,12 +140,13 @@ def coq_case(c, r):
     return "(K_pib %s %s %s %s %s %s %s %s)" % tuple([cq(c[x]) for x in ("x", "y", "xmin", "ymin", "xmax", "ymax", "tol")] + [cb(r["b"])])
 
 def nontrivial(c, r):
-    if c["kind"] == "pibseq": return True
+    if c["kind"] in ("pibseq", "agree"): return True
     if c["kind"] == "pib":
         return not (c["xmin"] < c["x"] < c["xmax"] and c["ymin"] < c["y"] < c["ymax"])
     return not (c["lo"] < c["v"] < c["hi"])
 
 def shrink(c):
+    if c["kind"] == "agree": return
     if c["kind"] == "pibseq":
         for i in range(len(c["steps"])):
             if len(c["steps"]) > 1: yield dict(c, steps=c["steps"][:i] + c["steps"][i + 1:])
